@@ -28,6 +28,7 @@ func installPropertyHooks(w *World, prop string) {
 	w.genericPre = append(w.genericPre, implPre)
 	w.genericPost = append(w.genericPost, implPost)
 	w.caseHooks = append(w.caseHooks, implCases)
+	w.caseHooks = append(w.caseHooks, knownFindingCases)
 	w.caseFactHooks = append(w.caseFactHooks, implCaseFacts)
 }
 
@@ -39,4 +40,34 @@ func cmdSelftest(args []string) int { return 0 }
 
 func loadContractsOverlay(repo string, overlay map[string][]byte) ([]*Contract, []*SpecFn, error) {
 	return loadContracts(repo)
+}
+
+// knownFindingCases splits the verification of a function by the input classes of its
+// known findings: inside a class ("known<k>") failures are the recorded findings; outside
+// all of them ("rest") every obligation must discharge, so a new defect is still reported.
+func knownFindingCases(f *Frame, st *State, ct *Contract) []namedCase {
+	whens := f.c.W.knownCases[ct.FullName()]
+	if len(whens) == 0 {
+		return nil
+	}
+	c := f.c
+	sc := &Scope{c: c, fr: f, st: st, old: st, vars: map[string]*Val{}, pkg: f.fn.Pkg}
+	if names := ct.Extra["isa"]; len(names) > 0 {
+		if e := c.W.isaTable[names[0]]; e != nil {
+			isaClassVars(c, st, e, sc)
+		}
+	}
+	var cases []namedCase
+	var any []Term
+	for k, wsrc := range whens {
+		e, err := parseExpr(wsrc)
+		if err != nil {
+			panic(sfail("known finding class %q: %v", wsrc, err))
+		}
+		t := sc.evalBool(e)
+		cases = append(cases, namedCase{fmt.Sprintf("known%d", k), t})
+		any = append(any, t)
+	}
+	cases = append(cases, namedCase{"rest", Not(Or(any...))})
+	return cases
 }
